@@ -22,7 +22,7 @@ import (
 const teardownHorizon = 1000 * time.Hour
 
 // MaxTasks bounds the number of tasks of one run.
-const MaxTasks = 64
+const MaxTasks = 256
 
 // OpKind says what a parked task is about to do.
 type OpKind uint8
@@ -644,10 +644,20 @@ func (s *Sim) eligible(now int64) (mask uint64, list []*Task) {
 			s.held++ // runnable, held back only by an injected stall or clock jump
 			continue
 		}
-		mask |= 1 << uint(i)
+		mask ^= 1 << (uint(i) % 64) // ids above 63 fold onto the same 64 bits (replay compares the folded masks)
 		list = append(list, t)
 	}
 	return
+}
+
+//go:norace
+func inList(list []*Task, id int) bool {
+	for _, t := range list {
+		if t.ID == id {
+			return true
+		}
+	}
+	return false
 }
 
 //go:norace
@@ -817,7 +827,7 @@ func (s *Sim) decide(mask uint64, list []*Task, now time.Time) bool {
 		if s.replayPos < len(s.cfg.Replay) {
 			d = s.cfg.Replay[s.replayPos]
 			s.replayPos++
-			ok := d.Task >= 0 && d.Task < s.ntasks && mask&(1<<uint(d.Task)) != 0
+			ok := d.Task >= 0 && d.Task < s.ntasks && inList(list, d.Task)
 			if !s.cfg.Lenient && (d.Enabled != mask || !ok) {
 				s.End = EndDiverged
 				s.EndDetail = fmt.Sprintf("step %d: recorded enabled=%b chosen=%d, now enabled=%b", s.steps, d.Enabled, d.Task, mask)
@@ -856,7 +866,7 @@ func (s *Sim) decide(mask uint64, list []*Task, now time.Time) bool {
 		s.mix(9999, uint64(d.Delta), 2)
 		time.AfterFunc(time.Duration(d.Delta), s.pokeNB)
 	default:
-		if s.cur != nil && s.cur != t && s.cur.state == stParked && mask&(1<<uint(s.cur.ID)) != 0 {
+		if s.cur != nil && s.cur != t && s.cur.state == stParked && inList(list, s.cur.ID) {
 			s.St.Switches++
 			if s.cur.inOp && s.cur.acqInOp > 0 {
 				s.St.MidOpSwitch++
